@@ -110,7 +110,7 @@ def run_query(sc, kind, timeout_ms=150000):
             m = info["model"]
             tr = trace_of(model, m, sched)
             res["schedule"] = [(model.tn[ti], os.path.basename(ins.file), ins.line, ins.op) for ti, pc, ins in tr]
-            res["order"] = [model.tn[ti] if ins.op not in INTERNAL else (model.tn[ti], ins.op) for ti, pc, ins in tr]
+            res["order"] = [(model.tn[ti], ins.op) if ins.op in INTERNAL or ins.op == "wait_sleep" else model.tn[ti] for ti, pc, ins in tr]
             res["witness_params"] = eval_params(m, sc.params)
             res["witness_init"] = _init_of(model, m)
             res["clock"] = _clock_reads(model, m, sched)
@@ -119,7 +119,7 @@ def run_query(sc, kind, timeout_ms=150000):
         res["twin_all_threads_can_finish"] = g
         if g == "sat":
             tr = trace_of(model, gm, gs)
-            res["twin_order"] = [model.tn[ti] if ins.op not in INTERNAL else (model.tn[ti], ins.op) for ti, pc, ins in tr]
+            res["twin_order"] = [(model.tn[ti], ins.op) if ins.op in INTERNAL or ins.op == "wait_sleep" else model.tn[ti] for ti, pc, ins in tr]
             res["twin_lines"] = [(model.tn[ti], os.path.basename(ins.file), ins.line) for ti, pc, ins in tr if ins.op not in INTERNAL]
             res["twin_params"] = eval_params(gm, sc.params)
             res["twin_init"] = _init_of(model, gm)
